@@ -47,7 +47,12 @@ pub fn err_kind(e: &TemporalError) -> &'static str {
 pub fn render<T>(r: Result<T, TemporalError>, f: impl FnOnce(T) -> String) -> String {
     match r {
         Ok(v) => format!("ok {}", f(v)),
-        Err(e) => format!("err {}", err_kind(&e)),
+        Err(e) => {
+            if std::env::var("HARNESS_ERR_MSG").is_ok() {
+                eprintln!("ERR {e:?}");
+            }
+            format!("err {}", err_kind(&e))
+        }
     }
 }
 
